@@ -220,6 +220,7 @@ struct LoopObserver {
     max_iter: u64,
     wait_start: bool,
     ready_seen: bool,
+    last_sp: u32,
 }
 
 impl Observer for LoopObserver {
@@ -296,7 +297,19 @@ impl Observer for LoopObserver {
             self.pending_store = decode_timer_store(cpu, row.pc, &cpu.er);
         }
         self.max_iter = row.iter;
+        self.last_sp = row.sp;
         Ok(())
+    }
+}
+
+impl LoopObserver {
+    /// the iteration that reached the exit (or failed) is not seen at a loop top
+    fn final_lockstep(&mut self, cpu: &Cpu, g: &Guest, last: Option<&Row>) -> Result<(), Failure> {
+        if !self.check_timer {
+            return Ok(());
+        }
+        let row = Row { iter: last.map(|r| r.iter + 1).unwrap_or(0), pc: cpu.verif_pc(), sp: cpu.er[7], ccr: cpu.verif_ccr(), state: cpu.verif_state_sum() as u64, npend: 0 };
+        self.lock.boundary(cpu, g, &row, last, &[], &self.pending_store).map_err(|e| Failure::new("c13.timebase.peripherals", e))
     }
 }
 
@@ -327,6 +340,7 @@ fn real_run(scn: &Scn, g: &Option<Guest>, reft: &std::rc::Rc<RefTrace>, clock: &
         max_iter: 0,
         wait_start: scn.start_at.is_some(),
         ready_seen: false,
+        last_sp: 0,
     };
     let scn2 = scn.clone();
     let (run, mut obs) = run_sys(&gg, &cfg, &start_events(scn), obs, false, move |sim| {
@@ -401,6 +415,14 @@ fn real_run(scn: &Scn, g: &Option<Guest>, reft: &std::rc::Rc<RefTrace>, clock: &
         }
         // timer interrupt totals against the surviving phase hypotheses
         if let Some(g) = g {
+            if matches!(run.outcome, Outcome::Ok) {
+                let last_row = Row { iter: obs.max_iter, pc: reft.rows.last().map(|r| r.0).unwrap_or(0), sp: 0, ccr: 0, state: prev_state, npend: 0 };
+                // (SP of the last boundary is not needed: the final instruction is never an interrupt entry check target
+                // beyond what `boundary` derives from the state delta; use the real last boundary's SP to be exact)
+                let mut lr = last_row;
+                lr.sp = obs.last_sp;
+                obs.final_lockstep(&run.sim.cpu, g, Some(&lr))?;
+            }
             if obs.check_timer && obs.lock.enabled {
                 let mut tot = ReqCount::default();
                 let mut known = true;
